@@ -154,7 +154,7 @@ Theorem C04_solver_neighbourhoods_regenerated :
        NoDup (ids f) ->
        In b (fn_blocks f) ->
        calculate_reachin_gen T univ null union inter single f (b_idx b) st = reachin T univ null union inter single f st b /\
-       (main_name_fresh f -> calculate_livein_gen T null union inter f (b_idx b) st = livein T null union inter f st b).
+       (main_name_fresh f -> calculate_livein_gen T univ null union inter f (b_idx b) st = livein T null union inter f st b).
 Proof. exact @solver_gen_eq_In. Qed.
 
 Print Assumptions C04_global_graph_helpers_regenerated.
